@@ -220,7 +220,8 @@ pub fn parse(expression: &str) -> Result<Tokenized<'_, ExpressionMetadata>, Pars
     // Explicit lifetimes prevent inference errors.
     #[allow(clippy::needless_lifetimes)]
     fn flags_with_state<'i>(input: Input<'i>) -> ParseResult<'i, ()> {
-        flags(move |toggle| {
+        let is_boe = input.state.subexpression == input.location();
+        let (mut input, _) = flags(move |toggle| {
             move |mut input: Input<'i>| {
                 match toggle {
                     CaseInsensitive(toggle) => {
@@ -229,7 +230,13 @@ pub fn parse(expression: &str) -> Result<Tokenized<'_, ExpressionMetadata>, Pars
                 }
                 Ok((input, ()))
             }
-        })(input)
+        })(input)?;
+        if is_boe {
+            // Flags that begin a (sub)expression are not a part of its content: a tree wildcard
+            // that follows them still begins the (sub)expression.
+            input.state.subexpression = input.location();
+        }
+        Ok((input, ()))
     }
 
     // Explicit lifetimes prevent inference errors.
